@@ -30,6 +30,7 @@ PROP_MODULES = {
     "C20": ["contracts.c20"],
     "C06": ["contracts.c06"],
     "C01": ["contracts.c01"],
+    "C15": ["contracts.c15"],
 }
 
 
